@@ -296,6 +296,32 @@ PROPS = {
              "least 2 connections established; distinct = distinct normalised wire trace",
         assumptions=["at most 4 connects are outstanding per (socket, address) (MAX_CONNECTING_PER_ADDR); a 5th concurrent one fails by design"],
     ),
+    "C13": dict(
+        level="exploration",
+        level_text="Hook, wire and boundary oracles over four generated shapes of accept/connect traffic on one listening socket with "
+                   "1..4 real client sockets (token written by the connector, echoed with the accept index by the stream that read "
+                   "it) and scripted raw SYN sources: Order (SYNs pile up before / between paced sequential or 2..3 concurrent accept "
+                   "calls, SYN datagrams duplicated by the network or the source), Backlog (25..50 SYNs with nobody accepting, then "
+                   "a sequential acceptor), Abandon (1..45 accept futures and 1..4 connect futures dropped mid-call, then ordinary "
+                   "connects incl. from the same client), Limit (max_live_vsocks 1..3 connections held, one more SYN and a waiting "
+                   "accept, then a slot released). Checked: every successful connect reads back its own token from the one stream "
+                   "that read it; incoming connection objects are created in SYN arrival order; never more than 32 SYNs retained, a "
+                   "new SYN at a full backlog gets exactly one RESET (SYN's id, ack = SYN's seq) and never a stream, a SYN with room "
+                   "or a copy of a retained SYN never gets one; copies of one SYN never yield two live objects; connects after the "
+                   "abandonment all succeed; the waiting accept completes within one step of the slot's release.",
+        level_note=SIM_NOTE + "; a copy of a SYN that arrives after its first connection has ended yields a new stream (no TIME_WAIT "
+                   "in the protocol): counted, not judged",
+        technique="runtime monitoring: accept/connect workload with cancellation and SYN duplication + hooked queue/table state, wire and token-echo oracles",
+        budget=dict(quick=200, thorough=2400),
+        require=["c13_successful_connects", "c13_incoming_objects_checked_for_order", "c13_syns_arriving_at_a_full_backlog",
+                 "c13_resets_emitted", "c13_duplicate_syn_copies_seen", "c13_copies_of_a_retained_syn",
+                 "c13_cases_with_abandoned_accepts", "c13_cases_with_abandoned_connects", "c13_slot_waits_checked",
+                 "c13_objects_created_for_a_dead_acceptor"],
+        rule="a case is one generated (shape, listener options, clients, connect / raw SYN schedule, accept schedule, network) tuple; "
+             "non-trivial = at least 2 distinct SYNs reached the listener; distinct = distinct normalised wire trace; coverage_labels "
+             "lists the shapes",
+        assumptions=["which SYNs must be refused is decided only while no accept call is outstanding (exact from the hooked queue length)"],
+    ),
     "C14": dict(
         level="exploration",
         level_text="Wire oracles over three generated families: (1) whole-stack duplex executions with link MTUs 120..9000 per side "
